@@ -437,7 +437,7 @@ func runDecoderAux(o *Options, scratch, mode string) *AuxResult {
 	}
 	key := "bounded_" + mode
 	res.Coverage[key] = map[string]interface{}{
-		"label": "BOUNDED stand-in (run-time contract monitor + differential test against the toolchain's decoder); not a proof, not counted in obligations",
+		"label":       "BOUNDED stand-in (run-time contract monitor + differential test against the toolchain's decoder); not a proof, not counted in obligations",
 		"evaluations": rep.Evaluations, "decoded": rep.Decoded, "compared_with_reference": rep.Compared,
 		"skipped_system_encodings": rep.Skipped, "violations": len(rep.Violations), "samples": rep.Samples, "details": rep.Extra,
 		"exhaustive": rep.Extra["exhaustive"] == 1,
